@@ -184,6 +184,8 @@ type Cluster struct {
 	dials    map[string]int
 	truth    []HostSpec // what system.local / system.peers report (defaults to the nodes' specs)
 	PeersErr *cqlspec.Response
+	alias     map[string]string // public "ip:port" -> key in nodes
+	aliasOnly bool
 }
 
 func NewCluster(specs []HostSpec) *Cluster {
@@ -265,6 +267,18 @@ func (c *Cluster) AllLogs() []*LoggedReq {
 
 var ErrRefused = errors.New("vnode: connection refused")
 
+// SetAlias makes the node at real ("ip:port", the address it reports) reachable at public ("ip:port"); with
+// only == true the reported addresses themselves cannot be dialled any more (a cluster behind address translation).
+func (c *Cluster) SetAlias(public, real string, only bool) {
+	c.mu.Lock()
+	if c.alias == nil {
+		c.alias = map[string]string{}
+	}
+	c.alias[public] = real
+	c.aliasOnly = only
+	c.mu.Unlock()
+}
+
 // SetRefuse changes RefuseDial while sessions are dialling.
 func (n *Node) SetRefuse(mode string) {
 	n.mu.Lock()
@@ -282,6 +296,14 @@ func (c *Cluster) Dials(addr string) int {
 // DialContext implements gocql.Dialer.
 func (c *Cluster) DialContext(ctx context.Context, network, addr string) (net.Conn, error) {
 	c.mu.Lock()
+	dialled := ""
+	if real, ok := c.alias[addr]; ok {
+		dialled, addr = addr, real
+	} else if c.aliasOnly {
+		c.dials[addr]++
+		c.mu.Unlock()
+		return nil, fmt.Errorf("vnode: %s is a private address, not reachable from the client: %w", addr, ErrRefused)
+	}
 	n := c.nodes[addr]
 	nth := c.dials[addr]
 	c.dials[addr]++
@@ -304,8 +326,15 @@ func (c *Cluster) DialContext(ctx context.Context, network, addr string) (net.Co
 	if planFor != nil {
 		plan = planFor(addr, nth)
 	}
-	ip := net.ParseIP(n.Spec.IP)
-	client, server := Pipe(&net.TCPAddr{IP: net.IPv4(127, 0, 0, 1), Port: 40000 + nth}, &net.TCPAddr{IP: ip, Port: n.Spec.Port}, plan)
+	ip, port := net.ParseIP(n.Spec.IP), n.Spec.Port
+	if dialled != "" {
+		// the client's end of the connection names the address that was dialled
+		if h, p, err := net.SplitHostPort(dialled); err == nil {
+			ip = net.ParseIP(h)
+			port, _ = strconv.Atoi(p)
+		}
+	}
+	client, server := Pipe(&net.TCPAddr{IP: net.IPv4(127, 0, 0, 1), Port: 40000 + nth}, &net.TCPAddr{IP: ip, Port: port}, plan)
 	sc := &ServerConn{ID: int(atomic.AddInt64(&c.connSeq, 1)), Node: n, C: server, Client: client, Opened: time.Now()}
 	n.mu.Lock()
 	n.conns = append(n.conns, sc)
